@@ -140,7 +140,7 @@ Theorem C17_inv_erf_accuracy (FR : (R -> R) -> R -> R -> R -> res R) (K : nat) :
      Rerf r - p = 0 \/
      exists x1 x2, - (10) <= x1 /\ x1 < x2 /\ x2 <= 10 /\ (Rerf x1 - p) * (Rerf x2 - p) < 0 /\ (r = x1 \/ r = x2) /\
        (x2 - x1 < 1 / 10000 \/ x2 - x1 <= (10 - - (10)) / 2 ^ K)) ->
-  forall p r z, -1 < p < 1 -> 1 / 10000000000000000 <= Rabs (p - 1) ->
+  forall p r z, -1 < p < 1 -> 1 / 10000000000000000 <= Rabs (p - 1) -> 1 / 10000000000000000 <= Rabs (p + 1) ->
     inv_erf ROps FR p = Ok r -> Rerf z = p -> Rabs (r - z) <= 1 / 10000.
 Proof. exact (fun HK => inv_erf_accuracy FR K (cap_ge_50_ok K HK)). Qed.
 Print Assumptions C17_inv_erf_accuracy.
@@ -155,11 +155,12 @@ Theorem C17_inv_erf_sample_criterion (y p z a : R) : Rerf (y - a) < p < Rerf (y 
 Proof. exact (erf_enclosure_accuracy y p z a). Qed.
 Print Assumptions C17_inv_erf_sample_criterion.
 
-(** the guards of Inv_Erf: p = 1 returns 10, any other |p| >= 1 terminates the process *)
+(** the guards of Inv_Erf: p = 1 returns 10, p = -1 returns -10 (every double in (-1,1) is more than 1e-16 away from
+    both: the neighbours of -+1 are -+(1 - 2^-53)), any other |p| >= 1 terminates the process *)
 Theorem C17_inv_erf_guards (FR : (R -> R) -> R -> R -> R -> res R) (p : R) :
-  inv_erf ROps FR 1 = Ok 10 /\
-  (1 <= Rabs p -> 1 / 10000000000000000 <= Rabs (p - 1) -> inv_erf ROps FR p = Exit).
-Proof. exact (conj (inv_erf_one FR) (inv_erf_guard FR p)). Qed.
+  inv_erf ROps FR 1 = Ok 10 /\ inv_erf ROps FR (- (1)) = Ok (- (10)) /\
+  (1 <= Rabs p -> 1 / 10000000000000000 <= Rabs (p - 1) -> 1 / 10000000000000000 <= Rabs (p + 1) -> inv_erf ROps FR p = Exit).
+Proof. exact (conj (inv_erf_one FR) (conj (inv_erf_minus_one FR) (inv_erf_guard FR p))). Qed.
 Print Assumptions C17_inv_erf_guards.
 
 (** ** Vector spherical harmonics — for ALL degrees l >= 0 and orders |m| <= l, from the tables as they are in the source now *)
